@@ -2490,6 +2490,8 @@ class OpNorm:
             if o['via'] == 'list':
                 o['ord'] = None
                 o.pop('cond', None)
+            if o['ord'] in ('inf', '-inf') and o['via'] != 'ndarray' and any(0 in l.sizes() for l in env.slots[o['a']].ref.legs):
+                o.pop('cond', None)     # a stored size-0 block: np.linalg.norm(empty, +-inf) raises (registered finding F01.8, structural key `empty-block`)
         return o
 
     @staticmethod
